@@ -400,6 +400,14 @@ def run(program, rep, tier):
                      'world it enters: its deferred events are never released')
     rep.floor('C04.loop-release', 'SimpleLoop.switch release site', len(got),
               1)
+    # "delivered exactly once to the handlers registered at delivery time":
+    # the delivery loop skips handlers that are gone, not handlers that are
+    # falsy (the world itself - the listener of the relay - may define __len__)
+    rep.borrow(evrules.delivery_sites, program, rep, 'C10', {'deref'},
+               keep=lambda o: o.rule == 'C10.deref',
+               rename=lambda r: 'C04.gate',
+               why='a released event is popped from the queue but never '
+               'reaches a registered handler')
     # ... and the world it enables is the one the loop goes on processing
     # (C13.current: the adopted world is taken from the handle after the
     # clears of the switch)
